@@ -79,6 +79,10 @@ def run(ctx):
                 cachefile = cfg.get("handlers.dir.DirHandler", "cachefile")
                 tree.write("d/marker-0.txt", b"m")
                 tree.write("d/other.txt", b"o")
+                tree.write("d/subdir/inner.txt", b"i")
+                tree.write("d/page.html", b"<html><head><title>T</title></head></html>")
+                # transparency oracle: the same tree listed with caching off (own cache file name, lifetime 0)
+                cfg0 = pyg.make_config(tree.root, **{"handlers.dir.DirHandler|cachetime": "0", "handlers.dir.DirHandler|cachefile": ".cache.verif-fresh"})
                 clock.ms = 0
                 cur = 0
                 hist = [(0, 0)]          # (time ms, version) the directory has been in
@@ -101,6 +105,12 @@ def run(ctx):
                             os.utime(cpath, (clock.ms / 1000.0, clock.ms / 1000.0))   # the kernel stamped real time
                         m = re.search(rb"marker-(\d+)", rows or b"")
                         v = int(m.group(1)) if m else None
+                        fresh_rows, _fr = listing.real_rows(view, gplus, cfg0, "/d")
+                        norm = lambda b: re.sub(rb"marker-\d+", b"marker-N", b or b"")   # noqa: E731
+                        if v is not None and norm(rows) != norm(fresh_rows):
+                            res.violation("C10:cached-listing-differs:" + view, "a listing served through the cache differs from the listing generated without it "
+                                          "(apart from the directory version it shows)", {"lifetime": T, "ops": ops, "at_ms": clock.ms, "view": view, "gplus": gplus},
+                                          observed=norm(rows)[:600], required=norm(fresh_rows)[:600], replay={"lifetime": T, "ops": ops})
                         outs.append((clock.ms, v, view))
                         # oracle: v is the version the directory had at some t with now - t < T (or now)
                         ok = v == cur
